@@ -102,12 +102,15 @@ where
 
       match next {
         Some(value) => {
-          // Send the item to the observer
-          this
-            .observer
-            .as_mut()
-            .expect("future polled before done")
-            .next(value);
+          let observer =
+            this.observer.as_mut().expect("future polled before done");
+          observer.next(value);
+          // the downstream ended the stream (e.g. `take`): retire the task
+          // instead of polling the stream any further.
+          if observer.is_finished() {
+            this.observer.take();
+            break Poll::Ready(NormalReturn::new(()));
+          }
         }
         None => {
           let observer =
